@@ -451,7 +451,9 @@ class Network(Cached):
 
         #  Create sparse adjacency matrix from edge list
         sp_A = sp.coo_matrix(
-            (np.ones_like(edges.T[0]), tuple(edges.T)), shape=(N, N))
+            (np.ones_like(edges.T[0]), tuple(edges.T)), shape=(N, N)).tocsc()
+        #  A link listed several times (e.g. in both orientations) is one link
+        sp_A.data[:] = 1
 
         #  Set sparse adjacency matrix
         self.adjacency = sp_A
